@@ -63,6 +63,25 @@ func BuildEnvelope(
 		return nil, ErrInvalidThreshold
 	}
 
+	// Only shares that are actually placed in a grant which at least one
+	// keypair can decrypt can ever be recovered: require threshold+1 of those.
+	var reachableShares uint64
+	remainingShares := uint64(totalShares)
+	for _, gc := range grants {
+		sc := uint64(gc.GetShareCount())
+		if sc == 0 {
+			sc = 1
+		}
+		sc = min(sc, remainingShares)
+		remainingShares -= sc
+		if len(gc.GetKeypairIndexes()) != 0 {
+			reachableShares += sc
+		}
+	}
+	if reachableShares < uint64(threshold)+1 {
+		return nil, ErrInvalidThreshold
+	}
+
 	// Generate random Ristretto255 scalar as the master secret.
 	g := group.Ristretto255
 	secret := g.RandomNonZeroScalar(rnd)
